@@ -22,6 +22,7 @@ from sa import core, aggtables as AT
 from sa.pyfront import Program
 
 RULES = {
+    "R-C04-g": "aggregate constructors do not overwrite the caller's arrays (imported from the C17 analysis): zero-filling the caller's NaN-marked rows in place erases the missing markers, so a later aggregate over the same array - in another report format or the other cube - sees no missing cell",
     "R-C04-f": "the counters the array cube fills (valid / missing counts, per fill branch incl. several fact columns) are the same reducers as the index cube's: the shared missing-cell predicate then reads the same quantities in both cubes",
     "R-C04-e": "every near-zero test that decides 'this differenced counter is zero' (adjust_zeros' default, ffunc_count/xfunc_count.reduce) uses isclose(x, 0) with NumPy's default absolute tolerance, as documented - not a narrower one",
     "R-C04-d": "the counters read by the missing test mean the same thing in the grand total as in the cells (corner = all-rows instance of the cell value, per fact column): the missing test of a reconstructed common cell then sees that cell's own rows",
@@ -49,6 +50,18 @@ def main(tier):
     n_t = AT.rule_zero_snap_tolerance(prog, C, "R-C04-e")
     for rule, status, where, cons, detail, wit in C.items:
         rep.add(rule, where, cons, status, detail, True, wit)
+    import c17
+    sub17 = core.Report("C17", level="other", rules=c17.RULES, tier=tier)
+    st17 = {"events": 0, "mods": 0, "diagnostic": {}, "exceptions": {}, "regions": 0, "shortcuts": 0}
+    k17 = 0
+    for fi17, kind17 in c17.build_roots(prog):
+        if kind17 == "ctor" and fi17.module in ("ffuncs", "xfuncs") and not fi17.opaque:
+            c17.analyse_root(prog, fi17, kind17, sub17, st17)
+            k17 += 1
+    for o in sub17.obls:
+        if o.rule == "R-C17-a":
+            rep.add("R-C04-g", o.where, "[%s] %s" % (o.rule, o.construct), o.status, o.detail, True, o.witness)
+    rep.floor("R-C04-g", 10, k17)
     rep.floor("R-C04-a", 100, n_a)
     rep.floor("R-C04-b", 100, n_b)
     rep.floor("R-C04-c", 20, n_c)
